@@ -562,6 +562,11 @@ pub fn symver(r: &mut Rng, n: u64, x: &mut Exec, sink: &mut Sink) {
         let mut q = Vec::new();
         for i in 0..(m.versym.len() as u64 + 2) { q.push(json!(["req", w8(i)])); q.push(json!(["def", w8(i)])); }
         q.push(json!(["req", w8(u64::MAX)]));
+        for _ in 0..2 {
+            let v = r.below(m.versym.len() as u64 + 1);
+            let a = crate::gen::alias(r, v);
+            q.push(json!([*r.pick(&["req", "def"]), w8(a)]));
+        }
         q.push(json!(["def", w8(r.edge64())]));
         op["q"] = json!(q);
         sink.run(x, &op);
